@@ -18,3 +18,7 @@ def run(rep: Report, repo: Repo, tier: str) -> None:
     rule_output_dir_resolution(rep, repo, "C18-R5")
     # "the files of a directory in sorted name order" (stdout mode prints pages in production order)
     fsrules.rule_no_nondeterminism(rep, repo, "C18-R6")
+    # "the directory the user asked for": -o outranks an output.directory found in a settings file
+    from .c16 import rule_source_order
+    rule_source_order(rep, repo, "C18-R7")
+    fsrules.rule_mode_independence(rep, repo, "C18-R8")
